@@ -267,6 +267,7 @@ def rule_role_zip(ck, repo, R, select, floor):
             if not mols:
                 continue
             other = b if mols[0] is a else a
+            other = expand_locals(other, fn.node)  # `parsed = chain(...); zip(rxn.molecules(), parsed)`
             roles = _chain_roles(other)
             key = f'{fn.fq}:zip@{src(other)[:60]}'
             n_sites += 1
